@@ -177,6 +177,16 @@ impl QueryComputing {
         });
     }
 
+    /// Forgets what has been observed of `callee_target_id`; the callee stays
+    /// registered.
+    pub fn forget_callee_observation(&self, callee_target_id: &QueryID) {
+        if let Some(mut callee_observation) =
+            self.callee_info.callee_queries.get_sync(callee_target_id)
+        {
+            *callee_observation = None;
+        }
+    }
+
     pub const fn query_kind(&self) -> QueryKind { self.query_kind }
 
     pub fn caller_observe_tfc_callees(
